@@ -75,11 +75,36 @@ func onWalkError(f *xlib.File, fn *ast.FuncDecl) (found bool, acts []string) {
 	return
 }
 
+// deferred lists the deferred Close calls of a writer function by the ROLE of what is closed, not by its name:
+// the first parameter is the pipe, a variable made by gzip.NewWriter is the gzip layer, one made by tar.NewWriter the tar layer.
 func deferred(f *xlib.File, fn *ast.FuncDecl) []string {
+	role := map[string]string{}
+	if ps := paramNames(fn); len(ps) > 0 {
+		role[ps[0]] = "pipe"
+	}
+	ast.Inspect(fn.Body, func(n ast.Node) bool {
+		if as, ok := n.(*ast.AssignStmt); ok && len(as.Lhs) == 1 && len(as.Rhs) == 1 {
+			if c, ok := as.Rhs[0].(*ast.CallExpr); ok {
+				if id, ok := as.Lhs[0].(*ast.Ident); ok {
+					switch callName(c) {
+					case "gzip.NewWriter":
+						role[id.Name] = "gzip"
+					case "tar.NewWriter":
+						role[id.Name] = "tar"
+					}
+				}
+			}
+		}
+		return true
+	})
 	var out []string
 	for _, st := range fn.Body.List {
 		if d, ok := st.(*ast.DeferStmt); ok {
-			out = append(out, callName(d.Call))
+			name := callName(d.Call)
+			if recv, method, ok := strings.Cut(name, "."); ok && role[recv] != "" {
+				name = role[recv] + "." + method
+			}
+			out = append(out, name)
 		}
 	}
 	return out
@@ -102,10 +127,11 @@ func main() {
 	out.Def("httpDeferred", "List String", xlib.LeanStrList(defs))
 	pipeClosed := false
 	for _, d := range defs {
-		if d == hp[0]+".Close" {
+		if d == "pipe.Close" {
 			pipeClosed = true
 		}
 	}
+	_ = hp
 	out.Def("httpClosesPipeNormally", "Bool", xlib.LeanBool(pipeClosed))
 
 	// ---- storeFile: Lstat, header, Open, copy
@@ -128,30 +154,71 @@ func main() {
 	})
 	out.Def("storeFileOrder", "List String", xlib.LeanStrList(order))
 
-	// ---- readTar: err from Next: io.EOF -> true, nil ; anything else -> false, err
+	// ---- readTar: every return statement, labelled by the call whose error guards it
+	//   next-eof    `if err == io.EOF { return true, nil }`      next-error  the other return under `hdr, err := tr.Next()`
+	//   mkdirall / open / copy / close / symlink                  the `if … err := <call>; err != nil { return … }` arms
 	rt := hf.Func("readTar")
-	eofHit, errMiss, otherFalse := false, false, true
+	siteOf := func(is *ast.IfStmt) string {
+		src := ""
+		if is.Init != nil {
+			src = hf.Src(is.Init)
+		}
+		switch {
+		case strings.Contains(src, "os.MkdirAll("):
+			return "mkdirall"
+		case strings.Contains(src, "openFile(") || strings.Contains(src, "os.OpenFile("):
+			return "open"
+		case strings.Contains(src, "io.Copy("):
+			return "copy"
+		case strings.Contains(src, ".Close()"):
+			return "close"
+		case strings.Contains(src, "os.Symlink("):
+			return "symlink"
+		case hf.Src(is.Cond) == "err == io.EOF":
+			return "next-eof"
+		case is.Init == nil && hf.Src(is.Cond) == "err != nil":
+			return "next-error"
+		}
+		return "other"
+	}
+	var rets []string
+	var stack []ast.Node
 	ast.Inspect(rt.Body, func(n ast.Node) bool {
-		switch x := n.(type) {
-		case *ast.IfStmt:
-			if hf.Src(x.Cond) == "err == io.EOF" && len(x.Body.List) == 1 && hf.Src(x.Body.List[0]) == "return true, nil" {
-				eofHit = true
-			}
-		case *ast.ReturnStmt:
-			if len(x.Results) == 2 {
-				a, b := hf.Src(x.Results[0]), hf.Src(x.Results[1])
-				if a == "false" && b == "err" {
-					errMiss = true
+		if n == nil {
+			stack = stack[:len(stack)-1]
+			return true
+		}
+		stack = append(stack, n)
+		if r, ok := n.(*ast.ReturnStmt); ok {
+			site := "top"
+			// the innermost enclosing if whose BODY (not else-chain) holds this return
+			for i := len(stack) - 2; i >= 0; i-- {
+				if is, ok := stack[i].(*ast.IfStmt); ok {
+					inBody := i+1 < len(stack) && stack[i+1] == ast.Node(is.Body)
+					if inBody {
+						site = siteOf(is)
+						break
+					}
 				}
-				if a == "true" && b != "nil" {
-					otherFalse = false
-				}
 			}
+			var rs []string
+			for _, e := range r.Results {
+				rs = append(rs, hf.Src(e))
+			}
+			rets = append(rets, site+" -> "+strings.Join(rs, ", "))
 		}
 		return true
 	})
-	out.Def("readTarEofIsHit", "Bool", xlib.LeanBool(eofHit))
-	out.Def("readTarErrorIsMiss", "Bool", xlib.LeanBool(errMiss && otherFalse))
+	out.Def("readTarReturns", "List String", xlib.LeanStrList(rets))
+	// no way out of the loop other than a return
+	loopOnlyReturns := true
+	ast.Inspect(rt.Body, func(n ast.Node) bool {
+		if b, ok := n.(*ast.BranchStmt); ok && (b.Tok == token.BREAK || b.Tok == token.GOTO) {
+			loopOnlyReturns = false
+		}
+		return true
+	})
+	out.Def("readTarLoopLeftOnlyByReturn", "Bool", xlib.LeanBool(loopOnlyReturns))
 
 	// ---- httpCache.retrieve: 404 -> false, nil ; != 200 -> false, error
 	hr := hf.Func("httpCache.retrieve")
@@ -221,5 +288,31 @@ func main() {
 		}
 	}
 	out.Def("cmdRetrieveAndsExitStatus", "Bool", xlib.LeanBool(ands))
+	// the reader's input never ends by itself: cmd.Stdout is the pipe's write end, nobody closes it, and the goroutine that
+	// waits for the command closes the READ end afterwards - so a hit needs tar's own end marker
+	var pipeR, pipeW string
+	closesRead, closesWrite, stdoutIsW := false, false, false
+	ast.Inspect(cr.Body, func(n ast.Node) bool {
+		switch x := n.(type) {
+		case *ast.AssignStmt:
+			if len(x.Lhs) == 2 && len(x.Rhs) == 1 {
+				if c, ok := x.Rhs[0].(*ast.CallExpr); ok && callName(c) == "io.Pipe" {
+					pipeR, pipeW = cf.Src(x.Lhs[0]), cf.Src(x.Lhs[1])
+				}
+			}
+			if len(x.Lhs) == 1 && len(x.Rhs) == 1 && strings.HasSuffix(cf.Src(x.Lhs[0]), ".Stdout") && pipeW != "" && cf.Src(x.Rhs[0]) == pipeW {
+				stdoutIsW = true
+			}
+		case *ast.CallExpr:
+			if pipeR != "" && callName(x) == pipeR+".Close" {
+				closesRead = true
+			}
+			if pipeW != "" && (callName(x) == pipeW+".Close" || callName(x) == pipeW+".CloseWithError") {
+				closesWrite = true
+			}
+		}
+		return true
+	})
+	out.Def("cmdRetrieveInputNeverEndsCleanly", "Bool", xlib.LeanBool(stdoutIsW && closesRead && !closesWrite))
 	out.Write()
 }
